@@ -547,7 +547,17 @@ def check_system(s, exp, records, res, only=None, index_stride=1):
                 res.bad(ck, f"System[slice{sl}] raises {_exc(e)}", slice=list(sl), exc=type(e).__name__)
 
 
-def check_refuses(s, ftops, absent, res):
+def check_refuses(s, ftops, absent, res, loaded=()):
+    # a species whose instances have all been recognised already has no matching run left either: loading its topology AGAIN is refused
+    for key in list(loaded)[:1]:
+        try:
+            with contextlib.redirect_stdout(io.StringIO()):
+                s.add_ftop(ftops[key])
+            res.bad("refuses", f"add_ftop of the {SPECIES[key][0]} topology ({'-'.join(SPECIES[key][1])}) a second time is accepted although "
+                               f"every run of that species is already recognised (no matching run is left)", absent=key, again=True)
+            return
+        except Exception:
+            res.ok("refuses")
     for key in absent:
         try:
             with contextlib.redirect_stdout(io.StringIO()):
@@ -636,7 +646,7 @@ def run_case(files, seq, order, res, absent=None, fresh_absent=False, only=None,
         if sel("invariant"):
             check_invariant(s, instances, set(order), res)
         if sel("refuses"):
-            check_refuses(s, files.ftops, absent, res)
+            check_refuses(s, files.ftops, absent, res, loaded=[k for k in order if k in files.ftops])
         if fresh_absent and sel("refuses"):
             # the absent topology loaded first, on a file nothing has been consumed from
             for key in absent:
